@@ -257,9 +257,9 @@ theorem layoutB_sound {m : Msg} {L : Layout} (h : layoutB m = some L) : MsgAt m 
     · cases h
 
 theorem ptrOkB_sound {m : Msg} {sites : List Site} {σ : Site} (h : ptrOkB m sites σ = true) : PtrOk m sites σ := by
-  unfold ptrOkB at h
+  unfold ptrOkB ptrTgtB ptrSecB at h
   simp only [Bool.and_eq_true, decide_eq_true_eq] at h
-  obtain ⟨⟨⟨⟨h12, ht⟩, hq⟩, ha⟩, hu⟩ := h
+  obtain ⟨⟨h12, ht⟩, ⟨hq, ha⟩, hu⟩ := h
   refine ⟨h12, ?_, hq, ha, hu⟩
   cases hn : nameSiteB m.recs (m.recs.length + 1) (ptrAt m.recs σ.x - 12) with
   | none => rw [hn] at ht; cases ht
@@ -272,7 +272,7 @@ theorem ptrOkB_sound {m : Msg} {sites : List Site} {σ : Site} (h : ptrOkB m sit
     rw [hx, he]
     exact nameSiteB_sound _ _ _ _ _ hn
 
-theorem wfMsg_sound {m : Msg} (h : wfMsg m = true) : WFP m := by
+theorem wfMsg_sound' {m : Msg} (h : wfMsg m = true) : ∃ L, layoutB m = some L ∧ WFL m L := by
   unfold wfMsg at h
   cases hl : layoutB m with
   | none => rw [hl] at h; cases h
@@ -280,12 +280,16 @@ theorem wfMsg_sound {m : Msg} (h : wfMsg m = true) : WFP m := by
     rw [hl] at h
     unfold wfLayoutB at h
     simp only [Bool.and_eq_true, List.all_eq_true, Bool.or_eq_true, decide_eq_true_eq] at h
-    refine ⟨L, layoutB_sound hl, ?_, ?_, h.2⟩
+    refine ⟨L, rfl, layoutB_sound hl, ?_, ?_, h.2⟩
     · intro σ hσ he
       rcases (h.1 σ hσ).1 with hne | hp
       · exact (hne he).elim
       · exact ptrOkB_sound hp
     · intro σ hσ
       exact (h.1 σ hσ).2
+
+theorem wfMsg_sound {m : Msg} (h : wfMsg m = true) : WFP m := by
+  obtain ⟨L, _, hw⟩ := wfMsg_sound' h
+  exact ⟨L, hw⟩
 
 end Tins.Dns
